@@ -171,6 +171,18 @@ func sameView(what string, a, b viewSnap) string {
 }
 
 var checkC14 = register("C14/vector", func(c vecCase) string {
+	// two query orders: the lower views are read first / the top-level object is queried
+	// completely first (a higher-level query must not disturb what the lower views report)
+	if m := c14Once(c, false); m != "" {
+		return m
+	}
+	if m := c14Once(c, true); m != "" {
+		return "after the top-level object was queried first: " + m
+	}
+	return ""
+})
+
+func c14Once(c vecCase, topFirst bool) string {
 	lv := spec.Level(c.Level)
 	if lv < spec.Temporal {
 		return ""
@@ -183,6 +195,9 @@ var checkC14 = register("C14/vector", func(c vecCase) string {
 		o, err := decode3(lv, c.Input, c.NilRecv)
 		if err != nil || o.isNil() {
 			return fmt.Sprintf("accepted vector rejected: %v", err)
+		}
+		if topFirst {
+			snapViews(views3(o.B, o.T, o.E, lv)[:1])
 		}
 		ob, err := decode3(spec.Base, spec.ProjectV3(ref, spec.Base).String(), false)
 		if err != nil {
@@ -198,17 +213,24 @@ var checkC14 = register("C14/vector", func(c vecCase) string {
 		if o.E.BaseMetrics() == nil || o.E.TemporalMetrics() == nil {
 			return "accessor of a decoded environmental object returns nil"
 		}
+		ot, err := decode3(spec.Temporal, spec.ProjectV3(ref, spec.Temporal).String(), false)
+		if err != nil {
+			return fmt.Sprintf("temporal projection rejected: %v", err)
+		}
+		independentTemporal := snapViews(views3(nil, ot.T, nil, spec.Temporal))[0]
+		// the temporal view is read before the base view when topFirst (both orders occur)
+		if topFirst {
+			if m := sameView("temporal view of environmental object", snapViews(views3(nil, o.E.TemporalMetrics(), nil, spec.Temporal))[0], independentTemporal); m != "" {
+				return m
+			}
+		}
 		if m := sameView("base view of environmental object", snapViews(views3(o.E.BaseMetrics(), nil, nil, spec.Base))[0], independentBase); m != "" {
 			return m
 		}
 		if m := sameView("base view of the temporal view of the environmental object", snapViews(views3(o.E.TemporalMetrics().BaseMetrics(), nil, nil, spec.Base))[0], independentBase); m != "" {
 			return m
 		}
-		ot, err := decode3(spec.Temporal, spec.ProjectV3(ref, spec.Temporal).String(), false)
-		if err != nil {
-			return fmt.Sprintf("temporal projection rejected: %v", err)
-		}
-		return sameView("temporal view of environmental object", snapViews(views3(nil, o.E.TemporalMetrics(), nil, spec.Temporal))[0], snapViews(views3(nil, ot.T, nil, spec.Temporal))[0])
+		return sameView("temporal view of environmental object", snapViews(views3(nil, o.E.TemporalMetrics(), nil, spec.Temporal))[0], independentTemporal)
 	}
 	ref, ok := spec.AcceptV2(c.Input, lv)
 	if !ok {
@@ -217,6 +239,9 @@ var checkC14 = register("C14/vector", func(c vecCase) string {
 	o, err := decode2(lv, c.Input, c.NilRecv)
 	if err != nil || o.isNil() {
 		return fmt.Sprintf("accepted vector rejected: %v", err)
+	}
+	if topFirst {
+		snapViews(views2(o.B, o.T, o.E, lv)[:1])
 	}
 	ob, err := decode2(spec.Base, spec.ProjectV2(ref, spec.Base).String(), false)
 	if err != nil {
@@ -232,15 +257,21 @@ var checkC14 = register("C14/vector", func(c vecCase) string {
 	if o.E.BaseMetrics() == nil || o.E.TemporalMetrics() == nil || o.E.BaseMetrics() != o.E.Base || o.E.TemporalMetrics() != o.E.Temporal {
 		return "accessors of a decoded environmental object are nil or not the embedded objects"
 	}
-	if m := sameView("base view of environmental object", snapViews(views2(o.E.BaseMetrics(), nil, nil, spec.Base))[0], independentBase); m != "" {
-		return m
-	}
 	ot, err := decode2(spec.Temporal, spec.ProjectV2(ref, spec.Temporal).String(), false)
 	if err != nil {
 		return fmt.Sprintf("temporal projection rejected: %v", err)
 	}
-	return sameView("temporal view of environmental object", snapViews(views2(nil, o.E.TemporalMetrics(), nil, spec.Temporal))[0], snapViews(views2(nil, ot.T, nil, spec.Temporal))[0])
-})
+	independentTemporal := snapViews(views2(nil, ot.T, nil, spec.Temporal))[0]
+	if topFirst {
+		if m := sameView("temporal view of environmental object", snapViews(views2(nil, o.E.TemporalMetrics(), nil, spec.Temporal))[0], independentTemporal); m != "" {
+			return m
+		}
+	}
+	if m := sameView("base view of environmental object", snapViews(views2(o.E.BaseMetrics(), nil, nil, spec.Base))[0], independentBase); m != "" {
+		return m
+	}
+	return sameView("temporal view of environmental object", snapViews(views2(nil, o.E.TemporalMetrics(), nil, spec.Temporal))[0], independentTemporal)
+}
 
 // ---------------------------------------------------------------------------------------------
 // shared generators / enumerations
@@ -452,6 +483,6 @@ func TestC10(t *testing.T) {
 }
 
 func TestC14(t *testing.T) {
-	vectorPropertyTest(t, "C14", checkC14, sweepRule+"Oracle: BaseMetrics() / TemporalMetrics() of the decoded object (and the base view of the temporal view) versus an independent NewBase / NewTemporal decode of the reference projection of the vector (v3: prefix plus the tokens of the lower level in written order; v2: cut at the group boundary): equal score, severity, encoding and encoding error; accessors non-nil; v2 accessors return the exported embedded objects. Only temporal and environmental decoders are exercised. Non-trivial as C09.",
+	vectorPropertyTest(t, "C14", checkC14, sweepRule+"Oracle: BaseMetrics() / TemporalMetrics() of the decoded object (and the base view of the temporal view) versus an independent NewBase / NewTemporal decode of the reference projection of the vector (v3: prefix plus the tokens of the lower level in written order; v2: cut at the group boundary): equal score, severity, encoding and encoding error; accessors non-nil; v2 accessors return the exported embedded objects; each case is evaluated in two query orders (lower views first / top-level object queried completely first). Only temporal and environmental decoders are exercised. Non-trivial as C09.",
 		[]string{"projection computed by the reference tokenizer"}, spec.Temporal)
 }
